@@ -13,7 +13,7 @@ from harness import frames as FR, net as NET
 from harness.common import run_coq_cases, clist, cN, cbool, cbytes, copt
 
 MODEL_TARGETS = ['model/Pipeline.vo', 'corr/C01Corr.vo', 'corr/Harness.vo', 'model/SendQueue.vo', 'model/Parser.vo',
-                 'model/Fragmenter.vo']
+                 'model/Fragmenter.vo', 'model/Endpoint.vo', 'model/Network.vo', 'corr/NetworkCorr.vo']
 ASSUMPTIONS = [
     'the link is reliable and ordered (TCP / websocket): the harness delays and re-chunks, it never loses or reorders bytes',
     'applications are recording doubles; a payload whose data and metadata are both empty is excluded (the library\'s '
@@ -385,10 +385,14 @@ def correspond(ctx, corr, model_ok):
             cases.append((c, d))
     corr.oracle_failures.extend(reconnect_oracle())
     corr.count('reconnect with a stale partial frame', 4)
-    corr.traces = len(descs)
+    nets = network_runs(ctx, corr)
+    corr.traces = len(descs) + len(nets)
     corr.rule = ('random concurrent mixes of 1..6 interactions of the five models from either side, payload sizes 0..420 bytes, '
                  'fragment sizes none/64/100 per endpoint, byte-stream framing re-chunked at random (1 byte .. everything) or '
-                 'message framing, late futures and paced publishers; two Coq cases (one per direction) per run')
+                 'message framing, late futures and paced publishers; two Coq cases (one per direction) per run.  Network level: '
+                 'two RECORDED real endpoints with the harness as the per-stream FIFO link (random requests of all five models from '
+                 'both sides, deliveries with streams overtaking each other, publisher signals, answers, cancels, request-n, '
+                 'raising handlers, loss of one side), replayed through net_run of model/Network.v in Coq')
     corr.samples = [c[0][:300] for c in cases[:2]]
     if not model_ok:
         return
@@ -401,6 +405,43 @@ def correspond(ctx, corr, model_ok):
         for i in idx:
             corr.disagreements.append({'what': 'end-to-end pipeline vs model/Pipeline.v', 'run': cases[si * SH + i][1],
                                        'direction': 'client->server' if (si * SH + i) % 2 == 0 else 'server->client'})
+    network_corr(ctx, corr, nets)
+
+
+NET_HEADER = ('From Coq Require Import NArith List Bool Init.Byte.\nFrom RSV Require Import lib.Bytes model.Frame model.Endpoint '
+              'model.Network corr.NetworkCorr corr.Harness.\nImport ListNotations.\nOpen Scope N_scope.\n'
+              'Definition chk := chk_net.\n')
+
+
+def network_runs(ctx, corr):
+    """two recorded real endpoints with the harness as the link (harness/netrec.py): oracle now, Coq replay later"""
+    from harness import netrec
+    nets = []
+    for _ in range(ctx.scale(120, 2500)):
+        n = netrec.run_one(ctx.rng.randrange(1 << 30))
+        nets.append(n)
+        corr.nontriv(('net', n.desc['seed']))
+        corr.oracle_failures.extend(netrec.oracle(n))
+        corr.count('network histories')
+        corr.count('network steps', len(n.hist))
+        for h in n.hist:
+            corr.count('network:' + ('deliver' if h[1][0] == 'recv' else h[1][0]))
+        corr.count('network: frames still under way at the end', len(n.link['A']) + len(n.link['B']))
+    return nets
+
+
+def network_corr(ctx, corr, nets):
+    SH = 60
+    cases = [n.coq_case() for n in nets]
+    shards = ['Definition cases : list case_net := [\n' + ';\n'.join(cases[i:i + SH]) + '\n].' for i in range(0, len(cases), SH)]
+    out = run_coq_cases(shards, NET_HEADER, timeout=1200)
+    for si, (m, nf, idx) in enumerate(out):
+        corr.evaluations += m
+        for i in idx:
+            n = nets[si * SH + i]
+            corr.disagreements.append({'what': 'two recorded endpoints vs model/Network.v (net_run replayed on the recorded history)',
+                                       'run': n.desc, 'kind': 'network',
+                                       'note': 'an event\'s effects, a delivered frame or the final content of a link differs'})
 
 
 def search(ctx, budget):
@@ -412,6 +453,9 @@ def search(ctx, budget):
             run = Run(d).run()
             found.extend(run.failures)
         found.extend(reconnect_oracle())
+        from harness import netrec
+        for _ in range(40):
+            found.extend(netrec.oracle(netrec.run_one(ctx.rng.randrange(1 << 30))))
     return found
 
 
@@ -419,6 +463,10 @@ def replay(obj):
     case = obj.get('case') or obj
     if 'reconnect_case' in case:
         return bool(reconnect_oracle())
+    if case.get('kind') == 'network':
+        from harness import netrec
+        r = dict(case['run'])
+        return bool(netrec.oracle(netrec.run_one(r.pop('seed'), **r)))
     run = Run(case['run']).run()
     return bool(run.failures)
 
